@@ -49,6 +49,8 @@ def docs(rng, thorough=False):
     add("escapes_in_strings", 'import pytest\n\n@pytest.mark.usefixtures("\\x41b", "a\\nb", r"raw\\n", """tri\nple""", "a" "b", u"uni")\ndef test_a():\n    pass\n')
     add("semicolons_one_line", "import pytest; f = pytest.fixture()(lambda: 1)\n@pytest.fixture\ndef g(f): return f; yield\ndef test_a(f, g): pass; f; g\n")
     add("return_annotations", "import pytest\nfrom typing import *\n\n@pytest.fixture\ndef f() -> 'Iterator[\"é\"]':\n    yield 1\n\n@pytest.fixture\ndef g() -> Callable[[int, ...], Literal['x', 1, None, ...]]: return 1\n\n@pytest.fixture\ndef h() -> (lambda: 1): return 1\n\n@pytest.fixture\ndef i() -> Generator[int] | None | 'é': yield\n")
+    add("sig_comment_parens", "import pytest\n\n@pytest.fixture\ndef f():\n    return 1\n\ndef test_a(\n    f,\n    g=1\n):  # type: (Database, Cache) -> None\n    x = 1\n    return x\n\n"
+        "def test_b(f):  # regression (issue 12)\n    y = 2\n    return y\n\ndef test_c(f): return (f, (1))\n")
     # inlay-hint targets: annotated fixtures requested by parameters at many columns
     add("inlay_targets", "import pytest\n\n@pytest.fixture\ndef f() -> int:\n    return 1\n\n@pytest.fixture\ndef gg(f) -> 'Str':\n    return f\n\n"
         "def test_a(f, gg, good_fixture):\n    pass\n\nclass TestK:\n    def test_m(self, gg, f): pass\n\ndef test_b(\n    f,\n    gg,\n):\n    pass\n")
@@ -128,6 +130,10 @@ def metadata_cases():
                               "[tool.pytest-language-server]\nexclude = ['[', '***', 'a/**/b', '']\ndisabled_diagnostics = ['nope', '']\nunknown = {a = 1}\n",
                               "tool = 5\n", "[tool]\npytest-language-server = 'x'\n", "[[tool.pytest-language-server]]\n", "x = " + "[" * 2000]):
         case(f"pyproject_hostile_{i}", {"pyproject.toml": body})
+    case("mutual_pytest_plugins", {"conftest.py": GOOD_CONFTEST + "\npytest_plugins = [\"plugins.db\"]\n", "plugins/__init__.py": "",
+                                   "plugins/db.py": "import pytest\npytest_plugins = [\"plugins.cache\"]\n\n@pytest.fixture\ndef dbx():\n    return 1\n",
+                                   "plugins/cache.py": "import pytest\npytest_plugins = [\"plugins.db\", \"plugins.cache\"]\n\n@pytest.fixture\ndef cachex():\n    return 1\n",
+                                   "test_uses.py": "def test_u(dbx, cachex, good_fixture):\n    pass\n"})
     case("non_utf8_python", {"test_bad.py": b"def test_x(good_fixture):\n    s = '\xff\xfe'\n", "sub/conftest.py": b"\xff\xfe\x00\x00"})
     case("dir_named_like_test", {"test_dir.py/inner.txt": "x", "sub/conftest.py/x.txt": "y", "sub/test_ok.py": GOOD_TEST, "sub/deep_test.py/conftest.py": GOOD_CONFTEST})
     return cases
